@@ -14,18 +14,23 @@ EXTENDS Integers, Sequences, FiniteSets, TLC
 CONSTANTS Writers,        \* writer processes; each sends one message of Frames[w] frames
           TwoFrame,       \* writers that stream their message in two frames (Writer); the others use Write
           Dev,            \* subset of {"DataAfterClose", "EchoAfterOwnClose", "NoRecheck"}
-          PeerMay         \* subset of {"ping", "pong", "fpong", "data", "close", "echo"}
+          PeerMay,        \* subset of {"ping", "pong", "fpong", "data", "close", "echo"}
+          CtxProcs        \* calls whose context the application may cancel at any moment (C10); {} switches this part off
 K == "K"  R == "R"  P == "P"
 FramesOf == [w \in Writers |-> IF w \in TwoFrame THEN 2 ELSE 1]
 Procs == Writers \cup {K, R, P}
-VARIABLES closed, closing, sentClose, lk, out, emitting, inq, pc, pingActive, pongSig, peerDid, ret, tl, wframe
-vars == <<closed, closing, sentClose, lk, out, emitting, inq, pc, pingActive, pongSig, peerDid, ret, tl, wframe>>
+VARIABLES closed, closing, sentClose, lk, out, emitting, inq, pc, pingActive, pongSig, peerDid, ret, tl, wframe,
+          armedW,      \* the call whose context the timeoutLoop currently watches for writes ("none" = Background)
+          cancelled,   \* calls whose context the application has cancelled
+          fired        \* the call whose context made the timeoutLoop close the connection
+vars == <<closed, closing, sentClose, lk, out, emitting, inq, pc, pingActive, pongSig, peerDid, ret, tl, wframe, armedW, cancelled, fired>>
 Locks == {"msg", "wf", "rd"}
 Init == /\ closed = FALSE /\ closing = FALSE /\ sentClose = FALSE
         /\ lk = [l \in Locks |-> "free"] /\ out = <<>> /\ emitting = "none" /\ inq = <<>>
         /\ pc = [p \in Procs |-> CASE p = K -> "k_cas" [] p = R -> "r_lock" [] p = P -> "p_reg" [] OTHER -> "w_msglock"]
         /\ pingActive = FALSE /\ pongSig = FALSE /\ peerDid = {} /\ ret = [p \in Procs |-> "none"]
         /\ tl = "running" /\ wframe = [w \in Writers |-> 1]
+        /\ armedW = "none" /\ cancelled = {} /\ fired = "none"
 Goto(p, l) == pc' = [pc EXCEPT ![p] = l]
 U(v) == UNCHANGED v
 (* mu.lock: select {closed, acquire}; after acquiring re-check closed and release if set *)
@@ -40,58 +45,67 @@ Unlock(l) == lk' = [lk EXCEPT ![l] = "free"]        \* not owner-checked, as in 
 Kind(p, st) == CASE p \in Writers -> "data" [] p = P -> "ping"
                  [] p = R /\ st = "rpong" -> "pong" [] p = K /\ st = "kpong" -> "pong" [] OTHER -> "close"
 FrameLock(p, st, after) == /\ pc[p] = st \o "_wflock" /\ TryLock(p, "wf", st \o "_arm", after)
-                           /\ U(<<closed, closing, sentClose, out, emitting, inq, pingActive, pongSig, peerDid, ret, tl, wframe>>)
+                           /\ ret' = IF pc'[p] = after /\ p \in CtxProcs THEN [ret EXCEPT ![p] = "failed"] ELSE ret
+                           /\ U(<<closed, closing, sentClose, out, emitting, inq, pingActive, pongSig, peerDid, tl, wframe, armedW, cancelled, fired>>)
 (* closeSent is checked first (the fix), then the write context is handed to the timeoutLoop *)
 Refused(kind) == /\ sentClose
                  /\ \/ kind = "data"  /\ "DataAfterClose" \notin Dev
                     \/ kind = "close" /\ "EchoAfterOwnClose" \notin Dev
 FrameArm(p, st) == /\ pc[p] = st \o "_arm"
-                   /\ IF Refused(Kind(p, st)) \/ closed THEN Goto(p, st \o "_wfunlock") ELSE Goto(p, st \o "_hdr")
-                   /\ U(<<closed, closing, sentClose, lk, out, emitting, inq, pingActive, pongSig, peerDid, ret, tl, wframe>>)
+                   /\ IF Refused(Kind(p, st)) \/ closed \/ tl # "running"
+                        THEN Goto(p, st \o "_wfunlock") /\ U(armedW) /\ ret' = (IF p \in CtxProcs THEN [ret EXCEPT ![p] = "failed"] ELSE ret)
+                        ELSE Goto(p, st \o "_hdr") /\ armedW' = (IF p \in CtxProcs THEN p ELSE "none") /\ U(ret)   \* c.writeTimeout <- ctx
+                   /\ U(<<closed, closing, sentClose, lk, out, emitting, inq, pingActive, pongSig, peerDid, tl, wframe, cancelled, fired>>)
 FrameHdr(p, st) == /\ pc[p] = st \o "_hdr"
                    /\ LET kind == Kind(p, st) IN
                       /\ out' = Append(out, [k |-> kind, by |-> p, part |-> "hdr",
                                              n |-> IF p \in Writers THEN wframe[p] ELSE 1])
                       /\ emitting' = p /\ sentClose' = (sentClose \/ kind = "close") /\ Goto(p, st \o "_pay")
-                   /\ U(<<closed, closing, lk, inq, pingActive, pongSig, peerDid, ret, tl, wframe>>)
+                   /\ U(<<closed, closing, lk, inq, pingActive, pongSig, peerDid, ret, tl, wframe, armedW, cancelled, fired>>)
 FramePay(p, st) == /\ pc[p] = st \o "_pay"
                    /\ out' = Append(out, [k |-> Kind(p, st), by |-> p, part |-> "pay", n |-> IF p \in Writers THEN wframe[p] ELSE 1])
                    /\ emitting' = "none" /\ Goto(p, st \o "_disarm")
-                   /\ U(<<closed, closing, sentClose, lk, inq, pingActive, pongSig, peerDid, ret, tl, wframe>>)
+                   /\ U(<<closed, closing, sentClose, lk, inq, pingActive, pongSig, peerDid, ret, tl, wframe, armedW, cancelled, fired>>)
+(* on success the context is handed back: c.writeTimeout <- context.Background(); if the connection closed meanwhile the frame fails *)
 FrameDisarm(p, st) == /\ pc[p] = st \o "_disarm" /\ Goto(p, st \o "_wfunlock")
-                      /\ U(<<closed, closing, sentClose, lk, out, emitting, inq, pingActive, pongSig, peerDid, ret, tl, wframe>>)
+                      /\ IF closed \/ tl # "running"
+                           THEN U(armedW) /\ ret' = (IF p \in CtxProcs THEN [ret EXCEPT ![p] = "failed"] ELSE ret)
+                           ELSE armedW' = (IF "NoRearm" \in Dev THEN armedW ELSE "none") /\ U(ret)
+                      /\ U(<<closed, closing, sentClose, lk, out, emitting, inq, pingActive, pongSig, peerDid, tl, wframe, cancelled, fired>>)
 FrameUnlock(p, st, after) == /\ pc[p] = st \o "_wfunlock" /\ Unlock("wf") /\ Goto(p, after)
-                      /\ U(<<closed, closing, sentClose, out, emitting, inq, pingActive, pongSig, peerDid, ret, tl, wframe>>)
+                      /\ U(<<closed, closing, sentClose, out, emitting, inq, pingActive, pongSig, peerDid, ret, tl, wframe, armedW, cancelled, fired>>)
 Frame(p, st, after) == FrameLock(p, st, after) \/ FrameArm(p, st) \/ FrameHdr(p, st) \/ FramePay(p, st)
                        \/ FrameDisarm(p, st) \/ FrameUnlock(p, st, after)
 ----------------------------------------------------------------------------
 (* writer: msgWriter.reset (message lock), FramesOf[w] frames, unlock *)
 WMsgLock(w) == /\ pc[w] = "w_msglock" /\ TryLock(w, "msg", "w_wflock", "w_done")
-               /\ U(<<closed, closing, sentClose, out, emitting, inq, pingActive, pongSig, peerDid, ret, tl, wframe>>)
+               /\ U(<<closed, closing, sentClose, out, emitting, inq, pingActive, pongSig, peerDid, ret, tl, wframe, armedW, cancelled, fired>>)
 WNext(w) == /\ pc[w] = "w_after"
             /\ IF wframe[w] < FramesOf[w] /\ ~closed
                  THEN wframe' = [wframe EXCEPT ![w] = wframe[w] + 1] /\ Goto(w, "w_wflock") /\ U(lk)
                  ELSE Unlock("msg") /\ Goto(w, "w_done") /\ U(wframe)
-            /\ U(<<closed, closing, sentClose, out, emitting, inq, pingActive, pongSig, peerDid, ret, tl>>)
+            /\ ret' = IF ~(wframe[w] < FramesOf[w] /\ ~closed) /\ ret[w] = "none" THEN [ret EXCEPT ![w] = "ok"] ELSE ret
+            /\ U(<<closed, closing, sentClose, out, emitting, inq, pingActive, pongSig, peerDid, tl, armedW, cancelled, fired>>)
 Writer(w) == WMsgLock(w) \/ Frame(w, "w", "w_after") \/ WNext(w)
 (* pinger: register, write the ping, wait for its pong or for the connection to close *)
 PReg == /\ pc[P] = "p_reg" /\ pingActive' = TRUE /\ Goto(P, "p_wflock")
-        /\ U(<<closed, closing, sentClose, lk, out, emitting, inq, pongSig, peerDid, ret, tl, wframe>>)
+        /\ U(<<closed, closing, sentClose, lk, out, emitting, inq, pongSig, peerDid, ret, tl, wframe, armedW, cancelled, fired>>)
 PWait == /\ pc[P] = "p_wait"
-         /\ \/ pongSig /\ ret' = [ret EXCEPT ![P] = "nil"]
-            \/ closed /\ ret' = [ret EXCEPT ![P] = "errClosed"]
+         /\ \/ ret[P] = "failed" /\ U(ret)                               \* writing the ping frame failed: Ping returns that error
+            \/ ret[P] # "failed" /\ pongSig /\ ret' = [ret EXCEPT ![P] = "nil"]
+            \/ ret[P] # "failed" /\ closed /\ ret' = [ret EXCEPT ![P] = "errClosed"]
          /\ pingActive' = FALSE /\ Goto(P, "p_done")
-         /\ U(<<closed, closing, sentClose, lk, out, emitting, inq, pongSig, peerDid, tl, wframe>>)
+         /\ U(<<closed, closing, sentClose, lk, out, emitting, inq, pongSig, peerDid, tl, wframe, armedW, cancelled, fired>>)
 Pinger == PReg \/ Frame(P, "p", "p_wait") \/ PWait
 (* close(): closeMu makes check-and-flip atomic; then the forceLocks of msgWriter/msgReader.close *)
 DoClose(p, st, after) ==
    \/ /\ pc[p] = st \o "_cl0"
       /\ IF closed THEN Goto(p, after) /\ U(closed) ELSE closed' = TRUE /\ Goto(p, st \o "_cl1")
-      /\ U(<<closing, sentClose, lk, out, emitting, inq, pingActive, pongSig, peerDid, ret, tl, wframe>>)
+      /\ U(<<closing, sentClose, lk, out, emitting, inq, pingActive, pongSig, peerDid, ret, tl, wframe, armedW, cancelled, fired>>)
    \/ /\ pc[p] = st \o "_cl1" /\ lk["wf"] = "free" /\ lk' = [lk EXCEPT !["wf"] = "close"] /\ Goto(p, st \o "_cl2")
-      /\ U(<<closed, closing, sentClose, out, emitting, inq, pingActive, pongSig, peerDid, ret, tl, wframe>>)
+      /\ U(<<closed, closing, sentClose, out, emitting, inq, pingActive, pongSig, peerDid, ret, tl, wframe, armedW, cancelled, fired>>)
    \/ /\ pc[p] = st \o "_cl2" /\ lk["rd"] = "free" /\ lk' = [lk EXCEPT !["rd"] = "close"] /\ Goto(p, after)
-      /\ U(<<closed, closing, sentClose, out, emitting, inq, pingActive, pongSig, peerDid, ret, tl, wframe>>)
+      /\ U(<<closed, closing, sentClose, out, emitting, inq, pingActive, pongSig, peerDid, ret, tl, wframe, armedW, cancelled, fired>>)
 (* what a reader (R, or K inside waitCloseHandshake) does with the next inbound frame *)
 ReadFrame(p, st) ==
    /\ pc[p] = st \o "_hdr_in" /\ inq # <<>> /\ inq' = Tail(inq)
@@ -100,48 +114,57 @@ ReadFrame(p, st) ==
         [] Head(inq) = "fpong" -> U(pongSig) /\ Goto(p, st \o "_hdr_in")       \* foreign payload: ignored
         [] Head(inq) = "data"  -> Goto(p, st \o "_hdr_in") /\ U(pongSig)
         [] Head(inq) = "close" -> Goto(p, st \o "echo_wflock") /\ U(pongSig)
-   /\ U(<<closed, closing, sentClose, lk, out, emitting, pingActive, peerDid, ret, tl, wframe>>)
+   /\ U(<<closed, closing, sentClose, lk, out, emitting, pingActive, peerDid, ret, tl, wframe, armedW, cancelled, fired>>)
 ReaderBody(p, st, after) ==
    \/ ReadFrame(p, st)
    \/ /\ pc[p] = st \o "_hdr_in" /\ closed /\ Goto(p, st \o "_rdunlock")       \* a blocked read is woken by close
-      /\ U(<<closed, closing, sentClose, lk, out, emitting, inq, pingActive, pongSig, peerDid, ret, tl, wframe>>)
+      /\ U(<<closed, closing, sentClose, lk, out, emitting, inq, pingActive, pongSig, peerDid, ret, tl, wframe, armedW, cancelled, fired>>)
    \/ Frame(p, st \o "pong", st \o "_hdr_in")
    \/ Frame(p, st \o "echo", st \o "_rdunlock2")
    \/ /\ pc[p] = st \o "_rdunlock2" /\ Unlock("rd") /\ Goto(p, st \o "x_cl0")  \* handleControl: unlock, then close()
-      /\ U(<<closed, closing, sentClose, out, emitting, inq, pingActive, pongSig, peerDid, ret, tl, wframe>>)
+      /\ U(<<closed, closing, sentClose, out, emitting, inq, pingActive, pongSig, peerDid, ret, tl, wframe, armedW, cancelled, fired>>)
    \/ DoClose(p, st \o "x", st \o "_rdunlock")
    \/ /\ pc[p] = st \o "_rdunlock" /\ Unlock("rd") /\ Goto(p, after)             \* deferred unlock
-      /\ U(<<closed, closing, sentClose, out, emitting, inq, pingActive, pongSig, peerDid, ret, tl, wframe>>)
+      /\ U(<<closed, closing, sentClose, out, emitting, inq, pingActive, pongSig, peerDid, ret, tl, wframe, armedW, cancelled, fired>>)
 RLock == /\ pc[R] = "r_lock" /\ TryLock(R, "rd", "r_hdr_in", "r_done")
-         /\ U(<<closed, closing, sentClose, out, emitting, inq, pingActive, pongSig, peerDid, ret, tl, wframe>>)
+         /\ U(<<closed, closing, sentClose, out, emitting, inq, pingActive, pongSig, peerDid, ret, tl, wframe, armedW, cancelled, fired>>)
 Reader == RLock \/ ReaderBody(R, "r", "r_done")
 (* Close: casClosing, writeClose, waitCloseHandshake (5 s lock wait, 5 s read wait), close(), waitGoroutines *)
 KCas == /\ pc[K] = "k_cas" /\ closing' = TRUE /\ Goto(K, "k1_wflock")
-        /\ U(<<closed, sentClose, lk, out, emitting, inq, pingActive, pongSig, peerDid, ret, tl, wframe>>)
+        /\ U(<<closed, sentClose, lk, out, emitting, inq, pingActive, pongSig, peerDid, ret, tl, wframe, armedW, cancelled, fired>>)
 KWaitLock == /\ pc[K] = "k_waitlock"
              /\ \/ TryLock(K, "rd", "k_hdr_in", "k_cl0pre")
                 \/ lk["rd"] # "free" /\ ~closed /\ Goto(K, "k_cl0pre") /\ U(lk)       \* 5 s lock timeout
-             /\ U(<<closed, closing, sentClose, out, emitting, inq, pingActive, pongSig, peerDid, ret, tl, wframe>>)
+             /\ U(<<closed, closing, sentClose, out, emitting, inq, pingActive, pongSig, peerDid, ret, tl, wframe, armedW, cancelled, fired>>)
 KT5 == /\ pc[K] = "k_hdr_in" /\ inq = <<>> /\ ~closed /\ Goto(K, "k_rdunlock")       \* 5 s wait for the peer's Close
-       /\ U(<<closed, closing, sentClose, lk, out, emitting, inq, pingActive, pongSig, peerDid, ret, tl, wframe>>)
+       /\ U(<<closed, closing, sentClose, lk, out, emitting, inq, pingActive, pongSig, peerDid, ret, tl, wframe, armedW, cancelled, fired>>)
 KPre == /\ pc[K] = "k_cl0pre" /\ Goto(K, "k_cl0")
-        /\ U(<<closed, closing, sentClose, lk, out, emitting, inq, pingActive, pongSig, peerDid, ret, tl, wframe>>)
+        /\ U(<<closed, closing, sentClose, lk, out, emitting, inq, pingActive, pongSig, peerDid, ret, tl, wframe, armedW, cancelled, fired>>)
 KWaitGor == /\ pc[K] = "k_wg" /\ tl = "exited" /\ Goto(K, "k_done")                   \* waitGoroutines: timeoutLoopDone
             /\ ret' = [ret EXCEPT ![K] = "returned"]
-            /\ U(<<closed, closing, sentClose, lk, out, emitting, inq, pingActive, pongSig, peerDid, tl, wframe>>)
+            /\ U(<<closed, closing, sentClose, lk, out, emitting, inq, pingActive, pongSig, peerDid, tl, wframe, armedW, cancelled, fired>>)
 Closer == KCas \/ Frame(K, "k1", "k_waitlock") \/ KWaitLock \/ KT5 \/ ReaderBody(K, "k", "k_cl0pre") \/ KPre
           \/ DoClose(K, "k", "k_wg") \/ KWaitGor
 (* timeoutLoop goroutine: leaves once the connection is closed *)
 TLExit == /\ tl = "running" /\ closed /\ tl' = "exited"
-          /\ U(<<closed, closing, sentClose, lk, out, emitting, inq, pc, pingActive, pongSig, peerDid, ret, wframe>>)
+          /\ U(<<closed, closing, sentClose, lk, out, emitting, inq, pc, pingActive, pongSig, peerDid, ret, wframe, armedW, cancelled, fired>>)
+(* the application cancels the context of a call at any moment, also long after the call returned (defer cancel()) *)
+CtxCancel(p) == /\ p \in CtxProcs /\ p \notin cancelled /\ cancelled' = cancelled \cup {p}
+                /\ U(<<closed, closing, sentClose, lk, out, emitting, inq, pc, pingActive, pongSig, peerDid, ret, tl, wframe, armedW, fired>>)
+(* timeoutLoop: the watched context is done -> close().  (The close() body of this goroutine is collapsed into the flag flip:  *)
+(* its forceLocks only wait, they are exercised by the closer's DoClose.)                                                        *)
+TLFireW == /\ tl = "running" /\ ~closed /\ armedW # "none" /\ armedW \in cancelled
+           /\ closed' = TRUE /\ fired' = armedW /\ tl' = "exited"
+           /\ U(<<closing, sentClose, lk, out, emitting, inq, pc, pingActive, pongSig, peerDid, ret, wframe, armedW, cancelled>>)
 (* the peer: each of its possible moves at most once, in any order *)
 PeerAct(a, f) == /\ a \in PeerMay /\ a \notin peerDid /\ Len(inq) < 2 /\ inq' = Append(inq, f) /\ peerDid' = peerDid \cup {a}
-                 /\ U(<<closed, closing, sentClose, lk, out, emitting, pc, pingActive, pongSig, ret, tl, wframe>>)
+                 /\ U(<<closed, closing, sentClose, lk, out, emitting, pc, pingActive, pongSig, ret, tl, wframe, armedW, cancelled, fired>>)
 SawOut(kind) == \E i \in 1..Len(out) : out[i].k = kind /\ out[i].part = "pay"
 Peer == \/ PeerAct("ping", "ping") \/ PeerAct("data", "data") \/ PeerAct("close", "close") \/ PeerAct("fpong", "fpong")
         \/ (SawOut("ping") /\ PeerAct("pong", "pong")) \/ (SawOut("close") /\ PeerAct("echo", "close"))
-Lib == (\E w \in Writers : Writer(w)) \/ Pinger \/ Reader \/ Closer \/ TLExit
-Next == Lib \/ Peer
+Lib == (\E w \in Writers : Writer(w)) \/ Pinger \/ Reader \/ Closer \/ TLExit \/ TLFireW
+App == \E p \in CtxProcs : CtxCancel(p)
+Next == Lib \/ Peer \/ App
 Spec == Init /\ [][Next]_vars /\ WF_vars(Lib)
 ----------------------------------------------------------------------------
 Hdrs == SelectSeq(out, LAMBDA x : x.part = "hdr")
@@ -164,6 +187,10 @@ PingNilOnlyAfterPong == ret[P] = "nil" => "pong" \in peerDid
 PongOnlyForPing == \A i \in 1..Len(Hdrs) : Hdrs[i].k = "pong" => "ping" \in peerDid
 (* C20: when Close has returned the timeoutLoop goroutine is gone; C06: and the connection is closed *)
 CloseReturnedClean == ret[K] = "returned" => tl = "exited" /\ closed
+(* C10: the context of a call that returned successfully never closes the connection; and whenever no frame is in flight the   *)
+(* timeoutLoop watches Background                                                                                              *)
+Harmless == fired # "none" => ret[fired] \notin {"ok", "nil"}
+ArmedOnlyInFrame == armedW # "none" => (\E st \in {"w", "p"} : pc[armedW] \in {st \o "_hdr", st \o "_pay", st \o "_disarm"}) \/ closed \/ "NoRearm" \in Dev
 (* C09 (with the 5 s timers KWaitLock/KT5 as the only timers): Close ends, every call returns *)
 CloseTerminates == <>(pc[K] = "k_done")
 AllReturn == <>[](\A p \in Procs : pc[p] \in {"w_done", "p_done", "r_done", "k_done"})
